@@ -996,14 +996,13 @@ def pad(tensor, padding, value=0.0):
                 tn.eye(pad[1], device=cores[k].device, dtype=cores[k].dtype)
             value = 1
     else:
-        rprod = np.prod(tensor.R)
-        value = value/rprod
-
-        cores = [c.clone() for c in tensor.cores]
+        # constant fill c: pad(x, c) = pad(x - c, 0) + c (zero padding is exact core-wise)
+        cores = [c.clone() for c in (tensor - value if value != 0 else tensor).cores]
         for pad, k in zip(reversed(padding), reversed(range(len(tensor.N)))):
             cores[k] = tnf.pad(
-                cores[k], (0, 0, pad[0], pad[1], 0, 0), value=value)
-            value = 1 if value != 0 else 0
+                cores[k], (0, 0, pad[0], pad[1], 0, 0), value=0)
+        if value != 0:
+            return torchtt._tt_base.TT(cores) + value
 
     return torchtt._tt_base.TT(cores)
 
